@@ -19,7 +19,10 @@ RULE = ("programs fit(y[, fh]) ; update(batch)* ; predict([fh]) over every forec
         "integer Index with a random start, out-of-sample horizons (contiguous and gapped, up to 9 "
         "steps) given relative or absolute, fh passed to fit, to predict or to both, 0-2 update "
         "batches (empty batches included) with update_params False/True (True also when no horizon "
-        "has been seen before the update); every program is run a second time on the series shifted "
+        "has been seen before the update); histories in which the forecaster already holds ANOTHER "
+        "horizon than the one requested now (fit(y, fh=A) then predict(fh=B), an earlier predict(fh=P) "
+        "after fit or after an update, both) for every forecaster kind - forecasters that need the "
+        "horizon at fit must reject the other one with ValueError; every program is run a second time on the series shifted "
         "by a random k for the shift relation; a few NaiveForecaster configurations that fit "
         "documents to reject (drift on one observation, seasonal mean on less than one season) are "
         "included and must be rejected at fit. non-trivial = a forecast was returned (or a "
@@ -237,6 +240,40 @@ def _with_update_predict(rng, c):
     return c
 
 
+def _other_fh(rng, c):
+    """a horizon whose set of steps differs from the one requested in the final predict"""
+    if c["fc"]["t"] == "stack":
+        return rng.choice([h for h in ([1], [1, 2], [1, 2, 3]) if h != c["fh"]])
+    for _ in range(20):
+        h = _rand_fh(rng)
+        if h != c["fh"]:
+            return h
+    return [c["fh"][-1] + 1]
+
+
+def _with_horizon_history(rng, c, mode):
+    """the forecaster (and, in a composite, every member) already HOLDS a horizon other than the
+    one requested in the final predict: `fit-differs` = fit(y, fh=A) ... predict(fh=B), B != A;
+    `earlier-predict` = a predict(fh=P), P != B, after fit or after one of the updates.  The final
+    predict always passes its horizon explicitly.  Forecasters that need the horizon at fit document
+    to reject a different one later: for those the program must end in ValueError at that predict
+    (relative horizons only there: their comparison is on the steps as written)."""
+    req = _needs_fh_at_fit(c["fc"])
+    c.pop("up", None)
+    c.pop("late", None)
+    if req:
+        c["fh_kind"] = "rel"
+        c.pop("fh_given", None)
+    if mode == "fit-differs":
+        c["fh_at"] = "both"
+        c["fh_fit"] = _other_fh(rng, c)
+    else:
+        c["fh_at"] = "both" if req else rng.choice(["predict", "both"])
+        c["pre"] = {"fh": _other_fh(rng, c), "kind": "rel" if req else rng.choice(["rel", "rel", "abs"]),
+                    "at": rng.randint(0, len(c["updates"]))}
+    return c
+
+
 def gen_cases(rng, tier):
     quick = tier == "quick"
     cases = []
@@ -327,6 +364,21 @@ def gen_cases(rng, tier):
         end = observed if (i % 4 == 0 or lo > observed - 1) else rng.randint(lo, observed - 1)
         m = rng.randint(1, min(4, end - 1))
         c["late"] = {"a": end - m, "m": m}
+        cases.append(c)
+    # the forecaster already holds ANOTHER horizon than the one requested now (from fit, or left by
+    # an earlier predict - also across updates), for every kind of forecaster; both at once too
+    kinds = ([_fix_reg(_leaf(rng, [t])) for t in LEAVES for _ in range(4 if quick else 30)]
+             + [_fc(rng, w) for w in ["ensemble", "ttf", "multiplex", "stack", "grid"]
+                for _ in range(6 if quick else 40)])
+    for i, fc in enumerate(kinds):
+        c = _case(rng, fc)
+        if i % 2:
+            c["updates"] = rng.choice([[], [2], [1, 2]])
+            c["update_params"] = bool(c["updates"]) and c["update_params"]
+        _with_horizon_history(rng, c, ["fit-differs", "earlier-predict"][(i // 2) % 2])
+        if i % 5 == 0 and "pre" in c and not _needs_fh_at_fit(fc):
+            c["fh_at"] = "both"
+            c["fh_fit"] = _other_fh(rng, c)
         cases.append(c)
     if not quick:
         cases += exhaustive_cases()
@@ -502,19 +554,41 @@ def _run_program(case, shift, reference=None):
             fh = ForecastingHorizon(np.array([final_cutoff + r for r in given]), is_relative=False)
         else:
             fh = ForecastingHorizon(np.array(given), is_relative=True)
+        fh_fit = fh
+        if case.get("fh_fit"):          # another horizon at fit than the one requested in predict
+            fh_fit = (ForecastingHorizon(np.array([final_cutoff + r for r in case["fh_fit"]]), is_relative=False)
+                      if case["fh_kind"] == "abs" else
+                      ForecastingHorizon(np.array(case["fh_fit"]), is_relative=True))
+        pre, pre_index = case.get("pre"), None
+
+        def earlier_predict(j, stage_now):
+            # an earlier predict with another horizon, from the cutoff the forecaster has at that point
+            if not pre or pre["at"] != j:
+                return stage_now, None
+            cut = t0 + n + sum(case["updates"][:j]) - 1
+            h = (ForecastingHorizon(np.array([cut + r for r in pre["fh"]]), is_relative=False)
+                 if pre["kind"] == "abs" else ForecastingHorizon(np.array(pre["fh"]), is_relative=True))
+            return "pre-predict", h
+
         stage = "fit"
         y_train = y_all.iloc[:n].copy()
         if case["fh_at"] in ("fit", "both"):
-            f.fit(y_train, fh=fh)
+            f.fit(y_train, fh=fh_fit)
         else:
             f.fit(y_train)
         cutoffs = [int(f.cutoff)]
+        stage, h = earlier_predict(0, stage)
+        if h is not None:
+            pre_index = [int(i) for i in f.predict(h).index]
         pos = n
         for i, m in enumerate(case["updates"]):
             stage = "update%d" % i
             f.update(y_all.iloc[pos:pos + m].copy(), update_params=case["update_params"])
             pos += m
             cutoffs.append(int(f.cutoff))
+            stage, h = earlier_predict(i + 1, stage)
+            if h is not None:
+                pre_index = [int(i_) for i_ in f.predict(h).index]
         if late:
             stage = "late-update"
             f.update(y_all.iloc[late["a"]:late["a"] + late["m"]].copy(), update_params=False)
@@ -540,7 +614,7 @@ def _run_program(case, shift, reference=None):
         p = f.predict(fh) if case["fh_at"] in ("predict", "both") else f.predict()
         return {"cutoffs": cutoffs, "index": [int(i) for i in p.index],
                 "vals": [float_ratio(v) for v in np.asarray(p.values, dtype=float)],
-                "type": type(p).__name__, "seen": seen}
+                "type": type(p).__name__, "seen": seen, "pre_index": pre_index}
     except (ValueError, NotImplementedError, IndexError, KeyError, TypeError, AttributeError) as e:
         return {"err": type(e).__name__, "stage": stage, "msg": str(e)[:200]}
 
@@ -558,6 +632,10 @@ def run_impl(case):
     if one_shot_ok and "err" not in out["a"] and out["a"].get("seen") is not None:
         ref = dict(case)
         out["r"] = _run_program(ref, 0, reference=out["a"]["seen"])
+    if (case.get("pre") or case.get("fh_fit")) and not rejected_stage(case) and "err" not in out["a"]:
+        # a fresh equal forecaster that never held another horizon: asked for this one directly
+        out["d"] = _run_program(dict({k: v for k, v in case.items() if k not in ("pre", "fh_fit")},
+                                     fh_at="predict"), 0)
     if _is_gapped(case["fh"]) and _fh_independent(case["fc"]) and "err" not in out["a"] \
             and not case.get("up") and not case.get("fh_dup"):
         # the same program asked for every step up to the furthest requested one
@@ -629,8 +707,31 @@ def documented_rejection(case):
     return None
 
 
+def rejected_stage(case):
+    """Forecasters that need the horizon at fit document to reject a different horizon later
+    (`_RequiredForecastingHorizonMixin._set_fh`; a composite hands the horizon on to such a member):
+    the stage at which the program must end in ValueError, else None."""
+    if not _needs_fh_at_fit(case["fc"]):
+        return None
+    if case.get("pre"):
+        return "pre-predict"
+    if case.get("fh_fit"):
+        return "predict"
+    return None
+
+
 def _check_run(case, out, shift, tag):
     why = documented_rejection(case)
+    rej = rejected_stage(case)
+    if rej and not why and not case.get("fh_dup"):
+        if out.get("err") == "ValueError" and out["stage"] == rej:
+            return None
+        if "err" not in out:
+            got = out["index"] if rej == "predict" else out.get("pre_index")
+            return ("accepted-horizon-other-than-the-one-required-at-fit%s: fitted with %s, %s asked for "
+                    "%s returned a forecast labelled %s (documented: ValueError)" % (
+                        tag, case.get("fh_fit", case["fh"]), rej,
+                        case["pre"]["fh"] if rej == "pre-predict" else case["fh"], got))
     if case.get("fh_dup"):
         # a horizon with a repeated step is rejected where it is first given
         first = "fit" if case["fh_at"] in ("fit", "both") else "predict"
@@ -658,6 +759,20 @@ def _check_run(case, out, shift, tag):
             return "cutoff-after-update%s: update %d (batch of %d) gives %s expected %s" % (
                 tag, i, case["updates"][i], g, w)
     want_i = expected_index(case, shift)
+    held = ""
+    if case.get("fh_fit"):
+        held += " [fitted with horizon %s]" % case["fh_fit"]
+    if case.get("pre"):
+        pre = case["pre"]
+        held += " [earlier predict of %s steps %s after %d update(s)]" % (pre["kind"], pre["fh"], pre["at"])
+        want_p = [case["t0"] + shift + case["n"] + sum(case["updates"][:pre["at"]]) - 1 + r
+                  for r in pre["fh"]]
+        if out.get("pre_index") != want_p:
+            return "labels-of-earlier-predict%s: index %s expected %s%s" % (
+                tag, out.get("pre_index"), want_p, held)
+    if held and out["index"] != want_i and sorted(out["index"]) != want_i:
+        return ("labels-not-of-the-horizon-requested-in-this-call%s: index %s expected %s (%s horizon %s, "
+                "cutoff %s)%s" % (tag, out["index"], want_i, case["fh_kind"], case["fh"], want_c[-1], held))
     if len(out["vals"]) != len(case["fh"]) or len(out["index"]) != len(case["fh"]):
         return "one-value-per-step%s: %d values for %d steps" % (tag, len(out["vals"]),
                                                                  len(case["fh"]))
@@ -696,13 +811,16 @@ def oracle(case, out):
     # histories is still reported: with a RELATIVE horizon the labels are those of the last moving
     # cutoff of the update_predict call (restored cutoff + d, d computed from the call's own
     # window / step / number of new observations), with an ABSOLUTE horizon the labels are right
-    # and only the values or an in-sample error show it.
+    # and only the values or an in-sample error show it.  A horizon given only to FIT counts as
+    # relative here whatever its kind: the final predict() takes no argument, so the members use the
+    # relative horizon that update_predict's own predict(cv.fh) calls stored in them, and the labels
+    # are exactly the relative signature (expected + d).
     if f and case.get("up") and case["fc"]["t"] in ("ensemble", "ttf", "multiplex"):
         if f.startswith("labels-after-update-predict"):
             up = case["up"]
             d = ((up["m"] - max(case["fh"])) // up["step"]) * up["step"]
             a = out["a"]
-            if (case["fh_kind"] == "rel" and d > 0 and "err" not in a
+            if ((case["fh_kind"] == "rel" or case["fh_at"] == "fit") and d > 0 and "err" not in a
                     and a["index"] == [w + d for w in expected_index(case, 0)]):
                 return COMPOSITE_MOVED + f
         elif case["fh_kind"] == "abs" and (f.startswith("values-after-update-predict")
@@ -738,6 +856,15 @@ def _oracle(case, out):
                 return ("values-after-update-predict: step %d: %s after fit; update_predict; predict, %s from "
                         "a fresh forecaster told the same data without moving its cutoff" % (
                             step, float(_fr(x)), float(_fr(y_))))
+    d = out.get("d")
+    if d is not None:
+        if "err" in d:
+            return "direct-request-raised: %s at %s: %s" % (d["err"], d["stage"], d["msg"][:100])
+        for step, x, y_ in zip(case["fh"], a["vals"], d["vals"]):
+            if d["index"] != a["index"] or not _close(_fr(x), _fr(y_)):
+                return ("values-differ-from-direct-request: step %d: %s (labels %s) from a forecaster that "
+                        "held another horizon before, %s (labels %s) from a fresh one asked for %s directly" % (
+                            step, float(_fr(x)), a["index"], float(_fr(y_)), d["index"], case["fh"]))
     c = out.get("c")
     if c is not None:
         tag = "-deseasonalized" if _deseasonalized(case["fc"]) else ""
@@ -754,7 +881,8 @@ def _oracle(case, out):
 
 
 def nontrivial(case, out):
-    return "err" not in out["a"] or documented_rejection(case) is not None
+    return ("err" not in out["a"] or documented_rejection(case) is not None
+            or rejected_stage(case) is not None)
 
 
 def shrink(case):
@@ -762,7 +890,17 @@ def shrink(case):
         yield {k: v for k, v in case.items() if k != "fh_given"}       # the horizon written in order
     if case.get("up"):
         yield {k: v for k, v in case.items() if k != "up"}
+    if case.get("pre") and case.get("fh_fit"):
+        yield {k: v for k, v in case.items() if k != "pre"}
+        yield {k: v for k, v in case.items() if k != "fh_fit"}
     for d in _shrink_raw(case):
+        if d.get("pre"):
+            if d["fh_at"] == "fit" or d["pre"]["fh"] == d["fh"]:
+                continue             # the final predict states its horizon, another one than before
+            if d["pre"]["at"] > len(d["updates"]):
+                d["pre"] = dict(d["pre"], at=len(d["updates"]))
+        if d.get("fh_fit") and (d["fh_at"] != "both" or d["fh_fit"] == d["fh"]):
+            continue
         if d.get("late") and d["late"]["a"] + d["late"]["m"] > d["n"] + sum(d["updates"]):
             continue                 # the late batch must stay inside the data seen before
         if "fh_given" in d and sorted(set(d["fh_given"])) != d["fh"]:
@@ -880,6 +1018,10 @@ def _cprog(case, with_fh_modes=True):
     else:
         fh = "(Rel %s)" % czlist(case["fh"])
     hf = "(Some %s)" % fh if case["fh_at"] in ("fit", "both") else "None"
+    if case.get("fh_fit") and case["fh_at"] in ("fit", "both"):
+        # another horizon at fit: the case form has always carried hf and hp separately
+        hf = "(Some (%s))" % ("Abs %s" % czlist([case["t0"] + total - 1 + r for r in case["fh_fit"]])
+                              if case["fh_kind"] == "abs" else "Rel %s" % czlist(case["fh_fit"]))
     hp = "(Some %s)" % fh if case["fh_at"] in ("predict", "both") else "None"
     if not with_fh_modes:
         hf, hp = fh, ""
@@ -889,9 +1031,18 @@ def _cprog(case, with_fh_modes=True):
 
 
 def coq_case(case, out):
-    if case.get("fh_dup"):
+    if case.get("fh_dup") or (rejected_stage(case) and "err" in out["a"]):
         return None            # rejected horizons are judged by the oracle only
-    return "CRun %s %s %s %s" % (_cprog(case), _crun(out["a"]), cz(case["k"]), _crun(out["b"]))
+    body = "%s %s %s %s" % (_cprog(case), _crun(out["a"]), cz(case["k"]), _crun(out["b"]))
+    pre = case.get("pre")
+    if pre and "err" not in out["a"] and "err" not in out["b"]:
+        # history with two predict calls: the earlier one after the first `at` updates
+        cut = case["t0"] + case["n"] + sum(case["updates"][:pre["at"]]) - 1
+        hpre = ("(Abs %s)" % czlist([cut + r for r in pre["fh"]]) if pre["kind"] == "abs"
+                else "(Rel %s)" % czlist(pre["fh"]))
+        return "CRunP %s %d%%nat %s %s %s" % (body, pre["at"], hpre, czlist(out["a"]["pre_index"] or []),
+                                            czlist(out["b"]["pre_index"] or []))
+    return "CRun " + body
 
 
 def coq_model_term(case):
@@ -925,6 +1076,13 @@ def distribution(cases, results):
             d["fh:repeated-step"] += 1
         if c.get("up"):
             d["history:update_predict-before-predict"] += 1
+        if c.get("fh_fit"):
+            d["history:horizon-at-fit-differs-from-predict"] += 1
+        if c.get("pre"):
+            d["history:earlier-predict-with-another-horizon-%s" % (
+                "after-fit" if c["pre"]["at"] == 0 else "after-update")] += 1
+        if rejected_stage(c):
+            d["history:other-horizon-rejected-by-required-at-fit"] += 1
         if c.get("late"):
             d["history:late-batch-ends-%s-the-cutoff" % (
                 "at" if c["late"]["a"] + c["late"]["m"] == c["n"] + sum(c["updates"]) else "before")] += 1
